@@ -19,7 +19,7 @@ import re
 
 from mirparse import Unsupported, split_top, split_path, scan_top, match_close
 from terms import (is_c, smt, t_add, t_sub, t_mul, t_neg, t_eq, t_lt, t_le, t_not, t_and, t_or,
-                   t_ite, t_mod_c, t_implies, t_assume)
+                   t_ite, t_mod_c, t_implies, t_assume, set_bound, bnd)
 
 # ---------------------------------------------------------------------------------------------
 # types
@@ -278,10 +278,46 @@ class Ref:
 
 
 class RefMut:
-    __slots__ = ("depth", "lid")
+    """&mut to a local of an active frame, optionally to a place inside it: `path` is a tuple of
+    ('field', i) / ('payload', variant, i) steps."""
+    __slots__ = ("depth", "lid", "path")
 
-    def __init__(self, depth, lid):
-        self.depth, self.lid = depth, lid
+    def __init__(self, depth, lid, path=()):
+        self.depth, self.lid, self.path = depth, lid, tuple(path)
+
+    def load(self, ex):
+        v = ex.frames[self.depth][self.lid]
+        for p in self.path:
+            if p[0] == "field":
+                v = v.fs[p[1]]
+            else:
+                v = v.pl[p[1]][p[2]]
+        return v
+
+    def store(self, ex, new, extra=()):
+        """Functional update of the target (followed by further ('field', i) steps `extra`)."""
+        def upd(cur, path):
+            if not path:
+                return new
+            p = path[0]
+            if p[0] == "field" and isinstance(cur, (Tup, St)):
+                fs = list(cur.fs)
+                fs[p[1]] = upd(fs[p[1]], path[1:])
+                return Tup(fs) if isinstance(cur, Tup) else St(cur.name, fs)
+            if p[0] == "payload" and isinstance(cur, En):
+                pl = dict(cur.pl)
+                fs = list(pl[p[1]])
+                fs[p[2]] = upd(fs[p[2]], path[1:])
+                pl[p[1]] = tuple(fs)
+                return En(cur.kind, cur.tag, pl)
+            raise Unsupported(f"write through &mut into {cur!r} at {path}")
+        fr = ex.frames[self.depth]
+        updated = upd(fr[self.lid], self.path + tuple(extra))
+        if self.depth != len(ex.frames) - 1:
+            # write from an inlined callee into a caller's local: the caller's state is shared by all the
+            # callee's paths, so the write is guarded by the current path condition
+            updated = vite(ex.pc, updated, fr[self.lid])
+        fr[self.lid] = updated
 
 
 class LazySt:
@@ -378,7 +414,7 @@ def vite(c, a, b):
         return En(a.kind, t_ite(c, a.tag, b.tag), pl)
     if isinstance(a, Ref) and isinstance(b, Ref):
         return Ref(vite(c, a.v, b.v))
-    if isinstance(a, RefMut) and isinstance(b, RefMut) and (a.depth, a.lid) == (b.depth, b.lid):
+    if isinstance(a, RefMut) and isinstance(b, RefMut) and (a.depth, a.lid, a.path) == (b.depth, b.lid, b.path):
         return a
     if isinstance(a, Opq) and isinstance(b, Opq):
         return a if a.d == b.d else Opq(f"({a.d}|{b.d})"[:80])
@@ -646,6 +682,8 @@ MAX_INLINE_DEPTH = 12
 
 class Exec:
     def __init__(self, world, models, div_mode="qr"):
+        import terms
+        terms._BND.clear()       # interval knowledge is per obligation (symbol names are reused)
         self.w = world
         self.models = models
         self.div_mode = div_mode
@@ -661,6 +699,8 @@ class Exec:
         self.const_cache = {}
         self.subst_stack = []
         self.stubs = []          # [(compiled regex, fn(ex, match, args))]: environment stubs of one obligation
+        self.tap_rx = []         # [(name, compiled regex)]: calls whose arguments / result the specification refers to
+        self.taps = {}           # name -> (args, result) of the single matching call
 
     # ---- SMT plumbing ---------------------------------------------------------------------
     def fresh(self, hint, sort="Int"):
@@ -674,6 +714,7 @@ class Exec:
         lo, hi = int_range(ty)
         self.decls.append(f"(declare-const {name} Int)")
         self.decls.append(f"(assert (and (<= {smt(lo)} {name}) (<= {name} {smt(hi)})))")
+        set_bound(name, lo, hi)
         return I(name, ty)
 
     def sym_bool(self, name):
@@ -687,6 +728,8 @@ class Exec:
         self.nfresh += 1
         n = f"|{re.sub(r'[^A-Za-z0-9_]', '_', hint)}!{self.nfresh}|"
         self.decls.append(f"(define-fun {n} () {sort} {t})")
+        if sort == "Int":
+            set_bound(n, *bnd(t))
         return n
 
     def side(self, f):
@@ -726,11 +769,18 @@ class Exec:
         q = self.fresh(hint + "_q")
         r = self.fresh(hint + "_r")
         an = self.name_term(a, hint + "_n")
+
         # (a >= 0 => q >= 0) is a consequence, added as a hint; the constraint stays satisfiable for
         # every value of a and b (also negative a on paths that are excluded by an overflow assert),
         # so it can never make a query vacuous.
         self.side(t_implies(t_lt(0, b), t_and(t_eq(an, t_add(t_mul(q, b), r)), t_le(0, r), t_lt(r, b),
                                               t_implies(t_le(0, an), t_le(0, q)))))
+        alo, ahi = bnd(an)
+        if is_c(b) and b > 0 and alo is not None and alo >= 0:
+            # consequences of the defining constraint just asserted (unconditional for a positive constant b);
+            # registered only now, so that the constraint itself is not folded away
+            set_bound(q, 0, ahi // b if ahi is not None else None)
+            set_bound(r, 0, b - 1)
         return q, r
 
     def sdivrem(self, a, b, hint="sq"):
@@ -755,7 +805,7 @@ class Exec:
         return t_add(t_mod_c(t_sub(t, lo), m), lo)
 
     # ---- running an item -----------------------------------------------------------------------
-    def run(self, item, subst, args, label=None):
+    def run(self, item, subst, args, label=None, init_locals=None):
         """Symbolically execute `item` with argument values; returns the value of _0.  self.pc is the
         path condition on entry and, on return, the condition under which the call returned."""
         if len(self.frames) > MAX_INLINE_DEPTH:
@@ -768,6 +818,8 @@ class Exec:
         if desc not in self.functions:
             self.functions.append(desc)
         st0 = {a: v for (a, _), v in zip(item.args, args)}
+        st0.update(init_locals or {})       # "$name" pseudo-locals: pointees of &mut arguments of the root function
+        fin = None
         blocks = item.blocks
         order, loops = self.topo(item)
         if loops and not self.unroll:
@@ -801,6 +853,9 @@ class Exec:
                             else:
                                 raise Unsupported(f"return without _0 in {item.name}")
                         ret = v if ret is None else vite(c, v, ret)
+                        if depth == 0:
+                            f = {k: x for k, x in st.items() if k.startswith("$")}
+                            fin = f if fin is None else {k: vite(c, f[k], fin[k]) for k in f}
                         ret_pc = t_or(ret_pc, c)
                     else:
                         incoming[tgt].append((t_and(self.pc, cond), dict(st)))
@@ -808,6 +863,8 @@ class Exec:
             self.frames.pop()
             self.subst_stack.pop()
         self.pc = ret_pc
+        if depth == 0:
+            self.root_final = fin or {}
         if ret is None:
             ret = Opq("diverges")
         return ret
@@ -958,7 +1015,7 @@ class Exec:
                 if isinstance(v, Ref):
                     v = v.v
                 elif isinstance(v, RefMut):
-                    v = self.frames[v.depth][v.lid]
+                    v = v.load(self)
                 else:
                     raise Unsupported(f"deref of non-reference {v!r}")
             elif p[0] == "downcast":
@@ -1005,12 +1062,16 @@ class Exec:
         if not proj:
             st[b] = v
             return
-        if proj == [("deref",)]:
-            r = st[b]
-            if not isinstance(r, RefMut):
-                raise Unsupported(f"write through non-&mut {r!r}")
-            self.frames[r.depth][r.lid] = v
+        if proj[0] == ("deref",) and isinstance(st.get(b), RefMut):
+            extra = []
+            for p in proj[1:]:
+                if p[0] != "field":
+                    raise Unsupported(f"write through &mut with projection {p} in {s!r}")
+                extra.append(("field", p[1]))
+            st[b].store(self, v, extra)
             return
+        if proj == [("deref",)]:
+            raise Unsupported(f"write through non-&mut {st.get(b)!r}")
 
         def upd(cur, proj):
             if not proj:
@@ -1112,9 +1173,14 @@ class Exec:
             body = rv[1:].strip()
             if body.startswith("mut "):
                 b, proj = self.parse_place(body[4:])
-                if proj:
+                base = None
+                if proj and proj[0] == ("deref",) and isinstance(st.get(b), RefMut):
+                    base, proj = st[b], proj[1:]              # reborrow through an existing &mut
+                elif not proj or proj[0][0] == "field":
+                    base = RefMut(len(self.frames) - 1, b)
+                if base is None or any(p[0] != "field" for p in proj):
                     raise Unsupported(f"&mut of projection {rv!r}")
-                return RefMut(len(self.frames) - 1, b)
+                return RefMut(base.depth, base.lid, base.path + tuple(("field", p[1]) for p in proj))
             if body.startswith("raw "):
                 raise Unsupported(f"raw pointer {rv!r}")
             b, proj = self.parse_place(body)
@@ -1380,7 +1446,8 @@ class Exec:
                 raise Unsupported(f"call without destination {t!r}")
             dest, call = body[:k].strip(), body[k + 3:].strip()
             callee, argstrs = self.split_call(call)
-            args = [self.operand(a, st, item) for a in argstrs]
+            args = [self.operand(a, st, item) if a.startswith(("copy ", "move ", "const ")) else Opq("fn item " + a)
+                    for a in argstrs]
             v = self.call(callee, args, st, item)
             if m2:
                 self.panic(f"diverging call {callee[:60]} in {item.last}", True)
@@ -1422,15 +1489,20 @@ class Exec:
             m = rx.match(callee)
             if m:
                 return f(self, m, args)
+        tapped = [n for n, rx in self.tap_rx if rx.match(callee) and len(self.frames) == 1]
         r = self.models.dispatch(self, callee, args)
-        if r is not NotImplemented:
-            return r
-        # closures passed as values are called through models; direct crate-local calls:
-        target = self.resolve_local(callee)
-        if target is None:
-            raise Unsupported(f"callee {callee!r} (called from {item.name}) has no model and no MIR in this crate")
-        it, subst = target
-        return self.run(it, subst, args)
+        if r is NotImplemented:
+            # closures passed as values are called through models; direct crate-local calls:
+            target = self.resolve_local(callee)
+            if target is None:
+                raise Unsupported(f"callee {callee!r} (called from {item.name}) has no model and no MIR in this crate")
+            it, subst = target
+            r = self.run(it, subst, args)
+        for n in tapped:
+            if n in self.taps:
+                raise Unsupported(f"tap {n}: more than one matching call ({callee})")
+            self.taps[n] = (list(args), r)
+        return r
 
     def resolve_local(self, callee):
         c = callee.strip()
